@@ -187,6 +187,12 @@ func (c *c02Checker) item(it c02Item) {
 }
 
 func (c *c02Checker) engineItem(it c02Item, mod *ast.Module, route *ast.Route) {
+	if route.InputType != nil {
+		// what a declared input type does to the body (defaults, validation) is the
+		// handlers' business: these programs are judged at HTTP level only
+		c.res.Count("typed_input_programs_judged_at_http_level_only", 1)
+		return
+	}
 	serve, code, _ := c02CompileModule(mod)
 	switch serve {
 	case c02Fallback:
